@@ -179,7 +179,7 @@ impl Prop for C19 {
         "case = seeded history on one of 6 networks (with / without the Prague rules at low heights) in which a Probe contract (writes NUMBER, TIMESTAMP, PREVRANDAO, CHAINID, BASEFEE, GASPRICE, COINBASE, ORIGIN, CALLER, staticcall(0xfa getTxId()), BLOCKHASH(n-d) for d in {1,2,10,11,255,256,257} to storage) is executed as inscription transaction (by address and by inscription id), as signed transaction, as parked-then-drained signed transaction, and through another contract, with arbitrary timestamps, explicit and server-generated hashes, commits, idle gaps (incl. > 256 blocks) and reorgs. After every such transaction the slots are read back with eth_getStorageAt and compared with what the harness supplied for *that* transaction (the drained transaction must see its own txid and the current block). Deposits / withdrawals: receipt.from must be the indexer address. distinct = sha256 of op list; non-trivial = at least one drained parked probe and one direct probe were checked".into()
     }
     fn assumptions(&self) -> Vec<String> {
-        vec!["the activation heights themselves (signet 275000, mainnet 923369) are not reached; networks with and without Prague at low heights are".into()]
+        vec!["the activation heights themselves (signet 275000, mainnet 923369) are not crossed by these histories; networks with and without Prague at low heights are (C16 probes above the activation heights)".into()]
     }
     fn execute(&self, case: &Value) -> RunOut {
         let sc = scenario_of(case);
